@@ -36,6 +36,7 @@ def enqueue (s : St) (a : Act) : St × List Cmd :=
   match a with
   | .nop => (s, [])
   | .flushWorld => (s, [])
+  | .runNow t => (s, [.run t])          -- anywhere but in an exclusive body: the queued form
   | .marker m => (s, [.marker m])
   | .spawn =>
     let (e, s) := s.fresh
@@ -218,6 +219,9 @@ def doExclActs (p : Prog) (s : St) (sys : Nat) (i : Nat) : St :=
   | none => (s.emit (.bodyEnd sys)).push [.flush]
   -- an explicit `world.flush()` (also what every `World`-level sender does) applies what is queued so far — the run's own
   -- cleanup first, which `run_initialized_system` queued before the body — and then the body goes on
+  -- a command applied in-line: the runner starts over whatever the body has queued (its own clean-up first), and the
+  -- runner's poll flushes that before the target is looked up
+  | some (.runNow t) => s.push [.runnerStart t .plain, .exclActs sys (i + 1)]
   | some a => ({ (enqueue s a).1 with wq := (enqueue s a).1.wq ++ (enqueue s a).2 }).push
       (if a = Act.flushWorld then [Frame.flush, Frame.exclActs sys (i + 1)] else [Frame.exclActs sys (i + 1)])
 
